@@ -4,7 +4,9 @@ spec/timers/Stopwatch.tla: TLC proves (exhaustively within the constants) that t
 stopwatch machine (exclusive field / shared cell, guards, overwrite = take-then-add, discard, clear, the
 borrow rule) reports, in every reachable state, exactly `Kept` of the property layer (sum of completed,
 non-discarded spans since the last clear/overwrite, None if there is none); same for the Timer and
-Timestamp machines.
+Timestamp machines.  StopwatchConc.tla: owned guards completed on several threads - every interleaving of the
+critical sections keeps the total; conformance T: `tm conc` records rounds of T threads x M owned guards completed at the
+same moment, StopwatchConcTrace.tla validates the total reported at close.
 
 Conformance R: StopwatchReplay.tla / TimersReplay.tla print every operation sequence of length Depth
 (exhaustive BFS over the history variable) and long -simulate walks; `tm` steps each of them through
@@ -113,6 +115,46 @@ def replay_file(chk, kind, path, n, ticks, label):
     return total_bad
 
 
+# --------------------------------------------------------------------------------------------
+# T: owned guards completed concurrently on several threads
+# --------------------------------------------------------------------------------------------
+def run_concurrent(chk, plans, seed, tag="conc"):
+    """plans: [(rounds, threads, guards per thread)]; every round is a scenario of StopwatchConcTrace.tla"""
+    rejected = 0
+    for n, (rounds, threads, guards) in enumerate(plans):
+        tp = os.path.join(chk.dir, f"{tag}-{n}-trace.ndjson")
+        mp = os.path.join(chk.dir, f"{tag}-{n}-meta.ndjson")
+        vlib.run_bin("tm", ["conc", "--out", tp, "--meta", mp, "--rounds", rounds, "--threads", threads, "--guards", guards,
+                            "--seed", seed * 10 + n], timeout=1800)
+        metas = vlib.read_ndjson(mp)
+        rej = []
+
+        def on_reject(m, v, lines):
+            ev = v.event if isinstance(v.event, dict) else {}
+            st = v.state if isinstance(v.state, dict) else {}
+            if ev.get("ev") == "Close":
+                why = (f"{m['threads']} threads completed {m['guards_per_thread']} owned guards each at the same moment; the completed, "
+                       f"non-discarded spans add up to {st.get('expected')} ticks, closing the stopwatch reports {ev.get('total')} "
+                       f"(-1 = nothing)")
+            else:
+                why = f"event {json.dumps(ev)[:200]} is not allowed here"
+            rej.append(m["id"])
+            chk.violation(f"concurrent owned guards, round {m['round']} (seed {m['seed']}): {why}",
+                          {"kind": "conc", "meta": m, "rejected_line": v.line, "trace": [json.loads(x) for x in lines]},
+                          key="C18:conc")
+
+        acc = vlib.validate_scenarios(SPECD, "StopwatchConcTrace", "StopwatchConcTrace.cfg", tp, mp, on_reject,
+                                      chunk=100, jobs=2, chunk_timeout=300, one_timeout=300)
+        rejected += len(rej)
+        chk.traces += acc
+        chk.evaluations += len(metas)
+        ex = chk.extra.setdefault("concurrent", {"rounds": 0, "guards_completed_concurrently": 0})
+        ex["rounds"] += len(metas)
+        ex["guards_completed_concurrently"] += sum(m["completed"] for m in metas)
+        chk.nontrivial.update(f"conc:{m['seed']}:{threads}x{guards}" for m in metas)
+    return rejected
+
+
 def check_coverage(r, actions, what):
     missing = [a for a in actions if r.coverage.get(a, 0) == 0]
     if missing:
@@ -130,6 +172,9 @@ def run(prop, tier):
         "is not exercised",
         "while a borrowed TimerGuard lives the stopwatch cannot be closed (Rust borrow rule): those steps are checked at the "
         "first step after the guard is gone",
+        "concurrent part: owned guards are completed (drop / stop / discard) at the same moment on 2-16 OS threads while the clock "
+        "stands still; concurrent overwrite / clear are not exercised (their result depends on an unobservable order); a lost "
+        "update that needs a window never hit in the recorded rounds is not seen",
         "exhaustive only up to the depth / slot / advance constants of the MC_*.cfg files; longer histories by random walks",
         "rendered timestamps are compared numerically (1e-12 relative for the floating-point units, +-1 for whole microseconds)",
     ]
@@ -148,6 +193,14 @@ def run(prop, tier):
         r = vlib.model_check(SPECD, "Stopwatch", "MC_tm.cfg", timeout=3600)
         check_coverage(r, TM_ACTIONS, "Stopwatch/TmSpec")
         chk.add_model("Stopwatch/MC_tm.cfg", r)
+        # owned guards completed on several threads: every interleaving of the critical sections
+        r = vlib.model_check(SPECD, "StopwatchConc", "MC_conc.cfg", timeout=600)
+        check_coverage(r, ["Complete", "Discard"], "StopwatchConc")
+        chk.add_model("StopwatchConc/MC_conc.cfg", r)
+        r = vlib.tlc(SPECD, "StopwatchConc", "MC_conc_neg.cfg", timeout=600)
+        if not r.invariant_violated:
+            raise vlib.ToolError("the property layer accepts an add that is split into read and write (MC_conc_neg.cfg)")
+        log(f"[tlc] StopwatchConc/MC_conc_neg.cfg: add split into read / write rejected ({r.invariant_violated[0]})")
         # negative model: a close-timestamp that prefers the ambient override must be rejected
         r = vlib.tlc(SPECD, "Stopwatch", "MC_tm_neg.cfg", timeout=600)
         if not r.invariant_violated:
@@ -187,6 +240,9 @@ def run(prop, tier):
             replay_file(chk, kind, path, n, ticks[:2], label)
             chk.nontrivial.update(f"{label}:{chk.seed}:{i}" for i in range(n))
     chk.extra["behaviours"] = nb
+    # 4. owned guards completed at the same moment on several OS threads (recorded, validated by TLC)
+    run_concurrent(chk, [(50, 4, 200), (20, 8, 100), (10, 2, 400)] if quick else [(600, 4, 300), (300, 8, 150), (200, 2, 600), (100, 16, 60)],
+                   chk.seed)
     # vacuity: the interesting cases must actually have been reached
     cases = chk.extra.get("cases_reached", {})
     for need in ["switch_to_shared_with_kept", "overwrite_over_kept", "discard_with_kept", "clear_with_live_guards",
@@ -205,6 +261,17 @@ def replay(prop, path):
         v = json.load(f)
     rp = v["replay"]
     vlib.cargo_build(["tm"])
+    if rp["kind"] == "conc":
+        chk = vlib.Check(prop + "-replay", "quick")
+        tp = os.path.join(chk.dir, "stored.ndjson")
+        vlib.write_ndjson(tp, rp["trace"])
+        r = vlib.validate_trace(SPECD, "StopwatchConcTrace", "StopwatchConcTrace.cfg", tp)
+        log("stored trace:", "ACCEPTED" if r.accepted else f"REJECTED at line {r.line}")
+        m = rp["meta"]
+        # the schedule is not reproducible: run the same shape a number of times
+        rej = run_concurrent(chk, [(60, m["threads"], m["guards_per_thread"])], m["seed"] % 1000, tag="replay")
+        log(f"re-ran 60 rounds of {m['threads']} threads x {m['guards_per_thread']} guards: {rej} rejected")
+        return 1 if rej else 0
     d = vlib.rundir(prop + "-replay")
     bp = os.path.join(d, "beh.ndjson")
     # keep the behaviour's id parity (it selects how the time source is injected)
